@@ -4,7 +4,7 @@ NOTES = ("All checks: ./check <id> --tier quick|thorough; setup builds the Coq d
          "and compiles the driver. known_findings.json lists recorded defects (kind known) and repaired ones (kind fixed).")
 NOT_APPLICABLE = {}
 # built, but their fix stage is in progress (model already in the repaired state, patches not yet committed to /repo)
-PENDING = {"C06"}
+PENDING = set()
 COMMON_NOTE = ("Trusted: Coq 8.16.1 kernel (+vm_compute), extraction (ExtrOcamlBasic, ExtrOcamlString), OCaml driver, the Python harness, "
                "CPython/torch as referents. Theorems are about the hand-written model; the model<->code tie is this run's differential "
                "correspondence, bounded by its generators (distribution in the evidence). ")
@@ -118,16 +118,17 @@ CHECKS = {
     },
     "C06": {
         "text": ("Proof (Coq): memoised reads of a locked tensordict equal a fresh recomputation — for EVERY tree of TensorDicts and EVERY history of "
-                 "memoised reads, in-place writes, lock_/unlock_ at any node (accepted or refused) and structural writes (refused under lock), by "
-                 "an invariant over the op list (entries equal fresh, unlocked nodes hold no entry, lock graph closed and registered); the cache key "
-                 "(`_make_cache_key`: str/int/slice/Ellipsis by value, everything else by id()) is injective on live objects; unlock erases every "
-                 "entry of the subtree; the cache is never consulted when unlocked and never stores tensors; with the two proposed repairs (erase on "
-                 "rebinding writes and on metadata writes) the full statement holds including non-tensor promotion, make_memmap*, names and "
-                 "batch_size writes; `_refuted` witnesses for the write paths /repo accepts under lock without invalidating; a finite table over "
-                 "the @cache / @erase_cache sites re-translated from the source on every run. Tie: extracted model vs implementation on key sets, "
-                 "hit/miss, stale verdicts and is_locked after every op; two model-independent oracles: an unlocked twin with identical content "
-                 "(every read API compared after every permitted write) and the TENSORDICT_VERIF hook in tensordict.utils.cache (every cache HIT "
-                 "compared with a fresh recomputation inside the library)."),
+                 "memoised reads, in-place writes, lock_/unlock_ at any node (accepted or refused), structural writes (refused under lock) and the "
+                 "writes the library accepts under lock (non-tensor promotion, make_memmap* of a new leaf, memmap_() at any node, names and "
+                 "batch_size assignment), by an invariant over the op list (entries equal fresh, unlocked nodes hold no entry, lock graph closed and "
+                 "registered); the cache key (`_make_cache_key`: str/int/slice/Ellipsis by value, everything else by id()) is injective on live "
+                 "objects and every entry keeps its arguments alive; unlock erases every entry of the subtree; the cache is never consulted when "
+                 "unlocked or under a derived lock and never stores tensors; after memmap_() a nested unlock is refused (general theorem); paired "
+                 "`repo` / `unrepaired` witnesses show what each fix: commit changed; `_refuted` witnesses for what /repo still gets wrong (lazy "
+                 "stacks memoise stacked copies, D65); a finite table over the @cache / @erase_cache sites re-translated from the source on every "
+                 "run. Tie: extracted model vs implementation on key sets, hit/miss, stale verdicts, lock flags and parents after every op; two "
+                 "model-independent oracles: an unlocked twin with identical content (every read API compared after every permitted write) and the "
+                 "TENSORDICT_VERIF hook in tensordict.utils.cache (every cache HIT compared with a fresh recomputation inside the library)."),
         "note": COMMON_NOTE + "Lazy-stack traversals that issue memoised calls across nodes, vmap exit paths, PersistentTensorDict and address reuse (CPython's "
                 "choice: only provoked) are covered by the oracles only. Known findings in findings.d/C06.json.",
         "technique": "Coq invariant over arbitrary histories + key-injectivity by nested induction + ast-translated site table + twin / in-library-hook oracles",
